@@ -461,10 +461,29 @@ func CfgC09() PropCfg {
 // ---------------------------------------------------------------------------------------------
 type monC11 struct {
 	chain map[string]int
+	// ignoredDue: auctions that were open and due (block time >= current end time) at the last
+	// processed block and that the block neither settled nor extended: they are not open any more
+	// in the sense of the property, whatever their recorded status says.
+	ignoredDue map[uint64]bool
 }
 
 func (m *monC11) Step(h *History, st *Step) []Violation {
 	var vs []Violation
+	if st.Op.Kind == OpBlock && st.Res.OK {
+		m.ignoredDue = map[uint64]bool{}
+		for _, a := range st.Pre.Auctions {
+			pa := st.Post.Auction(a.ID)
+			if a.Status == types.AuctionStatusStarted && !a.LastEnd().After(st.Now) && pa != nil && pa.Status == types.AuctionStatusStarted && len(pa.EndTimes) == len(a.EndTimes) {
+				m.ignoredDue[a.ID] = true
+			}
+		}
+	}
+	if st.Op.Kind == OpModifyBid && st.Res.OK && m.ignoredDue[st.Op.Auction] {
+		if a := st.Pre.Auction(st.Op.Auction); a != nil {
+			vs = append(vs, viol("C11/modified-after-end-time", "step #%d: modification %s was accepted although a block at or after the auction's current end time %s has already been processed (the auction is recorded as %s)", st.Idx, st.Op.String(), tfmt(a.LastEnd()), a.Status))
+			return vs
+		}
+	}
 	if m.chain == nil {
 		m.chain = map[string]int{}
 	}
@@ -542,7 +561,7 @@ func CfgC11() PropCfg {
 	return PropCfg{ID: "C11", Weights: w, MinOps: 12, MaxOps: 60, DrivePct: 40,
 		New: func() Monitor { return &monC11{} },
 		NonTrivial: func(h *History) bool { return hasLabel(h, "c11:chain>=2-noninteger-price") },
-		Rule: "K: chains of modifications per bid by the owner and by non-owners, new (price, amount) exactly at, one smallest unit below and above the old values, wrong denomination, missing bid, after close, on fixed-price auctions, poor signers. Accepted => signer == owner, auction open and batch, same denomination, price' >= price, amount' >= amount, one strictly, price' >= min bid price; identity fields unchanged; bidder's paying-coin delta == escrow delta == big-integer difference of the required reservations (ceilings). Every op: no bid key disappears, no bid changes except by its own accepted modification. Non-trivial = >=2 accepted modifications of one bid ending on a non-integer price.",
+		Rule: "K: chains of modifications per bid by the owner and by non-owners, new (price, amount) exactly at, one smallest unit below and above the old values, wrong denomination, missing bid, after close, on fixed-price auctions, poor signers. Accepted => no block at or after the auction's current end time has been processed without settling or extending it (open in time, not only by recorded status), signer == owner, auction open and batch, same denomination, price' >= price, amount' >= amount, one strictly, price' >= min bid price; identity fields unchanged; bidder's paying-coin delta == escrow delta == big-integer difference of the required reservations (ceilings). Every op: no bid key disappears, no bid changes except by its own accepted modification. Non-trivial = >=2 accepted modifications of one bid ending on a non-integer price.",
 	}
 }
 
